@@ -12,6 +12,13 @@ Record good (pick : list fid -> list fid) (disk : docs) (rank : path -> nat) (fu
   gd_client : client_ok no_bufs h = true
 }.
 
+Lemma good_pick_nodup : forall pick disk rank fuel h, good pick disk rank fuel h ->
+  forall l, NoDup l -> NoDup (pick l).
+Proof.
+  intros pick disk rank fuel h G l H. eapply Permutation_NoDup; [|exact H].
+  apply Permutation_sym. apply (gd_pick _ _ _ _ _ G).
+Qed.
+
 Lemma good_pick_in : forall pick disk rank fuel h, good pick disk rank fuel h ->
   forall l x, In x (pick l) <-> In x l.
 Proof.
@@ -27,7 +34,7 @@ Lemma run_winv : forall cf pick disk rank fuel h, good pick disk rank fuel h ->
             WInv disk rank fuel (final_docs disk h) (bufs_after no_bufs h) w.
 Proof.
   intros cf pick disk rank fuel h G. destruct (gd_resp _ _ _ _ _ G) as [Hd Hh].
-  apply (run_spec cf pick disk rank fuel (good_pick_in _ _ _ _ _ G) (gd_rank _ _ _ _ _ G) Hd h
+  apply (run_spec cf pick disk rank fuel (good_pick_in _ _ _ _ _ G) (good_pick_nodup _ _ _ _ _ G) (gd_rank _ _ _ _ _ G) Hd h
            (cur disk no_bufs) no_bufs empty_world).
   - apply WInv_empty. exact Hd.
   - exact Hh.
@@ -45,7 +52,8 @@ Theorem analysis_fresh : forall cf pick disk rank fuel h w, good pick disk rank 
   run cf pick disk fuel h = Ok w ->
   forall p f a, live_id w p = Some f -> w_an w f = Some a ->
     final_docs disk h p = Some (a_src a) /\ a_state a <> Typechecking /\
-    (a_state a = Typechecked -> same_diags (a_tdiags a) (expect_t (final_docs disk h) fuel p)).
+    (a_state a = Typechecked ->
+       same_diags (a_tdiags a) (expect_t (final_docs disk h) fuel p) /\ NoDup (a_tdiags a)).
 Proof.
   intros cf pick disk rank fuel h w G E p f a Hl Ha.
   destruct (run_winv cf pick disk rank fuel h G) as [w' [E' W]]. rewrite E in E'. inv E'.
@@ -54,7 +62,8 @@ Proof.
   pose proof (A f a Ha) as S. destruct (s_src _ _ _ _ _ S) as [p' Fp]. rewrite Fc in Fp. injection Fp as E1 E2. subst p' c.
   split; [exact Cc|]. split.
   - destruct (s_state _ _ _ _ _ S) as [H|[H _]]; congruence.
-  - intros Hs. rewrite (expect_t_unfold rank fuel (gd_rank _ _ _ _ _ G) (final_docs disk h) p (a_src a) R Cc).
+  - intros Hs. split; [|apply (s_nodup _ _ _ _ _ S Hs)].
+    rewrite (expect_t_unfold rank fuel (gd_rank _ _ _ _ _ G) (final_docs disk h) p (a_src a) R Cc).
     apply (s_diags _ _ _ _ _ S Hs).
 Qed.
 
@@ -90,6 +99,17 @@ Proof.
   intros cf pick disk rank fuel h w G E f a q Ha Hs Hq.
   destruct (run_winv cf pick disk rank fuel h G) as [w' [E' W]]. rewrite E in E'. inv E'.
   destruct W as [[Gi L R B A] _ _ _]. apply (s_stop _ _ _ _ _ (A f a Ha) Hs q Hq).
+Qed.
+
+Lemma expect_t_no_parse : forall cu n p, ~ In DParse (expect_t cu n p).
+Proof.
+  intros cu n p. destruct n as [|k]; cbn; [intros []|]. destruct (cu p) as [c|]; [|intros []].
+  unfold expect_c. rewrite in_app_iff. intros [H|H].
+  - unfold own_diags in H. destruct (snd (reach cu (c_imports c))); [destruct H as [H|[]]; discriminate|].
+    destruct (is_terr c); [destruct H as [H|[]]; discriminate|destruct H].
+  - apply in_flat_map in H. destruct H as [q [_ H]]. unfold imp_diag in H. destruct (cu q) as [cq|]; [|destruct H].
+    destruct (is_perr cq); [destruct H as [H|[]]; discriminate|].
+    destruct (is_nil (expect_t cu k q)); [destruct H|destruct H as [H|[]]; discriminate].
 Qed.
 
 Lemma expect_t_ext : forall cu cu' n p, (forall q, cu' q = cu q) -> expect_t cu' n p = expect_t cu n p.
@@ -128,7 +148,7 @@ Proof.
     destruct (analysis_fresh cf pick1 disk rank fuel h1 w1 G1 E1 p f1 a1 L1 V1) as [S1 [_ D1]].
     destruct (analysis_fresh cf pick2 disk rank fuel h2 w2 G2 E2 p f2 a2 L2 V2) as [S2 [_ D2]].
     rewrite Ec in S2. split; [congruence|]. intros T1 T2 d.
-    rewrite (D1 T1 d), (D2 T2 d). rewrite (expect_t_ext (final_docs disk h1) (final_docs disk h2) fuel p Ec). tauto.
+    rewrite (proj1 (D1 T1) d), (proj1 (D2 T2) d). rewrite (expect_t_ext (final_docs disk h1) (final_docs disk h2) fuel p Ec). tauto.
 Qed.
 
 Lemma run_pinv : forall cf pick disk rank fuel h w, good pick disk rank fuel h ->
@@ -136,7 +156,7 @@ Lemma run_pinv : forall cf pick disk rank fuel h w, good pick disk rank fuel h -
   run cf pick disk fuel h = Ok w -> PInv disk w.
 Proof.
   intros cf pick disk rank fuel h w G Hp E. destruct (gd_resp _ _ _ _ _ G) as [Hd Hh].
-  apply (run_pub cf pick disk rank fuel (good_pick_in _ _ _ _ _ G) (gd_rank _ _ _ _ _ G) Hd h
+  apply (run_pub cf pick disk rank fuel (good_pick_in _ _ _ _ _ G) (good_pick_nodup _ _ _ _ _ G) (gd_rank _ _ _ _ _ G) Hd h
            (cur disk no_bufs) no_bufs empty_world w); auto.
   - apply WInv_empty. exact Hd.
   - apply PInv_empty.
@@ -151,7 +171,7 @@ Theorem diagnostics_fresh : forall cf pick disk rank fuel h w, good pick disk ra
   (purge_closed cf = true \/ no_close h) ->
   run cf pick disk fuel h = Ok w ->
   (forall p ds, w_pub w p = Some ds -> live_id w p <> None ->
-     same_diags ds (expect (final_docs disk h) fuel p)) /\
+     same_diags ds (expect (final_docs disk h) fuel p) /\ NoDup ds) /\
   (forall p, bufs_after no_bufs h p <> None -> w_pub w p <> None).
 Proof.
   intros cf pick disk rank fuel h w G Hp E.
@@ -160,7 +180,11 @@ Proof.
   - intros p ds Hds Hl. destruct (live_id w p) as [f|] eqn:El; [|congruence].
     destruct (P1 p ds f Hds El) as [[]|[a [Ha [Hs ->]]]].
     destruct (analysis_fresh cf pick disk rank fuel h w G E p f a El Ha) as [Hc [_ Hd]].
-    unfold expect. rewrite Hc. unfold pdiags. intros d. rewrite !in_app_iff. rewrite (Hd Hs d). tauto.
+    destruct (Hd Hs) as [Hd1 Hd2]. split.
+    + unfold expect. rewrite Hc. unfold pdiags. intros d. rewrite !in_app_iff. rewrite (Hd1 d). tauto.
+    + unfold pdiags. apply NoDup_app_intro; [destruct (is_perr (a_src a)); repeat constructor; intros []|exact Hd2|].
+      intros d Hdd Hi. destruct (is_perr (a_src a)); [|destruct Hdd]. destruct Hdd as [<-|[]].
+      apply Hd1 in Hi. apply (expect_t_no_parse _ _ _ Hi).
   - intros p Hb. destruct (run_winv cf pick disk rank fuel h G) as [w' [E' W]]. rewrite E in E'. inv E'.
     destruct W as [_ _ Ho _]. apply Ho in Hb. destruct Hb as [id Hid]. apply (PO p id Hid).
 Qed.
